@@ -27,6 +27,12 @@ def probe_for_unit(unit_name):
     return None
 
 
+def probe_file(fn):
+    text = open(os.path.join(PROBE_DIR, fn)).read()
+    m = re.search(r"//@PROBE file=(\S+)", text)
+    return m.group(1) if m else "?"
+
+
 def probe_bound(fn):
     text = open(os.path.join(PROBE_DIR, fn)).read()
     m = re.search(r"//@BOUND (.*)", text)
